@@ -6,6 +6,7 @@ mod laws;
 mod prims;
 mod sem;
 mod syn;
+mod wide;
 
 fn main() {
     let args: Vec<String> = std::env::args().collect();
@@ -14,6 +15,7 @@ fn main() {
         Some("syn") if args.len() == 4 => syn::run(&args[2], &args[3]),
         Some("laws") if args.len() == 4 => laws::run(&args[2], &args[3]),
         Some("prims") if args.len() == 4 => prims::run(&args[2], &args[3]),
+        Some("wideslice") if args.len() == 3 => wide::run(&args[2]),
         Some("chars") if args.len() == 3 => std::fs::read_to_string(&args[2]).map_err(|e| e.to_string()).and_then(|t| {
             let v: serde_json::Value = serde_json::from_str(&t).map_err(|e| e.to_string())?;
             let out: Vec<serde_json::Value> = v.as_array().ok_or("list expected")?.iter().map(|s| syn::chars_of(s.as_str().unwrap_or(""))).collect();
